@@ -2546,7 +2546,11 @@ impl Connection {
                 src_cid: rem_cid, ..
             } => {
                 if self.side.is_server() {
-                    return Err(TransportError::PROTOCOL_VIOLATION("client sent Retry").into());
+                    // Retry packets carry no packet protection a server could check, so anyone who
+                    // knows (or corrupts a packet into having) the connection's DCID can produce
+                    // one: discard it rather than letting it close the connection.
+                    trace!("discarding Retry packet received by a server");
+                    return Ok(());
                 }
 
                 if self.total_authed_packets > 1
